@@ -56,7 +56,7 @@ func checkC07(c *core.Ctx) {
 			return v
 		})
 	}
-	targets = append(targets, []int{5}, []int{2, 4}, []int{4, 1, 5}, []int{33}, []int{3, 7})
+	targets = append(targets, []int{5}, []int{2, 4}, []int{4, 1, 5}, []int{33}, []int{3, 7}, []int{4}, []int{8}, []int{16, 2}, []int{2, 1, 2, 1, 2}, []int{1, 2, 1, 2, 1, 2})
 	for _, t := range targets {
 		if c.Expired() {
 			break
@@ -134,6 +134,33 @@ func checkC07(c *core.Ctx) {
 				}
 				return v
 			})
+		}
+	}
+	// ONE explicit Broadcast result consumed by two (three) operations of the same graph
+	for _, t := range seqTargets {
+		for _, src := range enum.BroadcastSources(t) {
+			for variant := 0; variant < 3; variant++ {
+				t, src, variant := t, src, variant
+				c.Case(fmt.Sprintf("fanout/Broadcast/%v->%v/v%d", src, t, variant), ref.Size(src) != ref.Size(t), func() core.Verdict {
+					a := enum.Generic(src, 226, 0.5, 3, true)
+					w1, w2 := enum.Weights(t, 227), enum.Weights(t, 228)
+					p := &ref.Program{Leaves: []*ref.T{a, w1, w2}, Tracked: []bool{true, false, false}}
+					p.Nodes = []ref.Node{{Op: ref.Op{K: "Broadcast", Shape: t}, In: []int{0}}} // t3
+					switch variant {
+					case 0: // y*y
+						p.Nodes = append(p.Nodes, ref.Node{Op: ref.Op{K: "Mul"}, In: []int{3, 3}})
+					case 1: // y*w1 + y*w2
+						p.Nodes = append(p.Nodes, ref.Node{Op: ref.Op{K: "Mul"}, In: []int{3, 1}}, ref.Node{Op: ref.Op{K: "Mul"}, In: []int{3, 2}}, ref.Node{Op: ref.Op{K: "Add"}, In: []int{4, 5}})
+					case 2: // (y + w1) * y - y
+						p.Nodes = append(p.Nodes, ref.Node{Op: ref.Op{K: "Add"}, In: []int{3, 1}}, ref.Node{Op: ref.Op{K: "Mul"}, In: []int{4, 3}}, ref.Node{Op: ref.Op{K: "Sub"}, In: []int{5, 3}})
+					}
+					v := gradCase(p, p.NTensors()-1, gradOpts{allowKF: true})
+					if !v.OK && !v.Skip {
+						v.Detail = describeProgram(p) + " :: " + v.Detail
+					}
+					return v
+				})
+			}
 		}
 	}
 	// Dot and MatMul: every broadcast-compatible batch pair
